@@ -120,8 +120,12 @@ pub fn explore<M: Model>(ctx: &Ctx, family: &str, model: &M, opts: ExploreOpts) 
                 // rebuild, check determinism, list enabled events
                 let evs = match util::catch(|| {
                     let sys = replay(model, hist).map_err(|_| ()).ok()?;
-                    let got = util::fnv64(&model.canon(&sys));
+                    let canon = model.canon(&sys);
+                    let got = util::fnv64(&canon);
                     if got != *fp {
+                        eprintln!("diverging canonical state: {}", String::from_utf8_lossy(&canon));
+                        let again = replay(model, hist).map_err(|_| ()).ok()?;
+                        eprintln!("another replay gives      : {}", String::from_utf8_lossy(&model.canon(&again)));
                         return None;
                     }
                     Some(model.enabled(&sys, hist))
